@@ -7,6 +7,7 @@ import (
 	"unicode/utf8"
 
 	"github.com/vektah/gqlparser/v2/ast"
+	"github.com/vektah/gqlparser/v2/gqlerror"
 	"github.com/vektah/gqlparser/v2/parser"
 	"github.com/vektah/gqlparser/v2/verifhook"
 
@@ -143,9 +144,31 @@ func c01Run(x *core.Ctx) {
 			}
 		}
 		x.DoLite("src", "src", s, func() { c01Input(x, s, false) })
+		if i%10 == 7 && len(s) < 4000 {
+			// several texts in one call, most of them broken, some of them twice (after seeded change C01-wave10-C: the
+			// sources parsed side by side, and a second failure never delivered)
+			k := 2 + r.Intn(3)
+			kv := []string{"n", fmt.Sprint(k), "src0", s}
+			for j := 1; j < k; j++ {
+				t := s
+				switch r.Intn(4) {
+				case 0:
+					t = randomLexSoup(r, soupPieces, 5+r.Intn(60))
+				case 1:
+					t = randomLexSoup(r, validPieces, 5+r.Intn(60))
+				case 2:
+					t = r.Pick("type T { a: Int }", "", "}", "\"", "extend", "type T { a: Int } type T { a: Int }", "\ufeff", "scalar S @a(")
+				}
+				kv = append(kv, fmt.Sprintf("src%d", j), t)
+			}
+			mc := core.NewCase("multi", kv...)
+			x.Do(mc, func() { c01Check(x, mc) })
+		}
 	}
 	// 5. nesting bombs
-	bombs := []string{"[", "{", "(", "{a", "a:[", "a:{a:", "[[[", "@a(a:[", `"""`, "#", "...{", "{a(b:", "query(", "$a:[", "type A{a(", "a:[a]=[", "union U=|", "&", "extend ", "\"\" "}
+	bombs := []string{"[", "{", "(", "{a", "a:[", "a:{a:", "[[[", "@a(a:[", `"""`, "#", "...{", "{a(b:", "query(", "$a:[", "type A{a(", "a:[a]=[", "union U=|", "&", "extend ", "\"\" ",
+		// runs of ignored characters (no token, no nesting: nothing in them may cost stack), after seeded change C01-wave10-A
+		"\ufeff", ",", "\r", "\n\r", "\t ", ",\ufeff", "#\n", "#\r"}
 	var sizes []int
 	if quick {
 		sizes = []int{1 << 10, 1 << 13}
@@ -216,6 +239,36 @@ func c01Check(x *core.Ctx, c *core.Case) {
 		fmt.Sscan(c.Get("limit"), &lim)
 		b := c.Get("unit")
 		c01Bomb(x, c.Get("pre")+strings.Repeat(b, sz/len(b)), lim)
+	case "multi":
+		var n int
+		fmt.Sscan(c.Get("n"), &n)
+		x.Count("multi_source_calls")
+		for _, lim := range []int{0, 3, 1 << 20} {
+			var srcs []*ast.Source
+			for j := 0; j < n; j++ {
+				srcs = append(srcs, &ast.Source{Name: fmt.Sprintf("part%d.graphql", j), Input: c.Get(fmt.Sprintf("src%d", j)), BuiltIn: j == 2})
+			}
+			var d *ast.SchemaDocument
+			var err error
+			if lim == 0 {
+				d, err = parser.ParseSchemas(srcs...)
+			} else {
+				d, err = parser.ParseSchemasWithLimit(lim, srcs...)
+			}
+			if (d == nil) == (err == nil) {
+				x.Violate("result-shape:schemas", fmt.Sprintf("document nil: %v, error nil: %v", d == nil, err == nil), "a document or an error")
+			}
+			if err != nil {
+				x.Count("multi_source_errors")
+				if ge, ok := err.(*gqlerror.Error); ok && len(ge.Locations) > 0 {
+					for j, sc := range srcs {
+						if f, _ := ge.Extensions["file"].(string); f == sc.Name {
+							checkErrLocation(x, "parse-schemas", ref.NewLineIndex(c.Get(fmt.Sprintf("src%d", j))), err)
+						}
+					}
+				}
+			}
+		}
 	default:
 		c01Input(x, c.Get("src"), false)
 	}
